@@ -285,8 +285,10 @@ class Input(ContextManager["Input"]):
                         raise
                     return e
                 if e is None and not self.unprocessed_bytes:
-                    # the rest of this keypress may have been cut off by the read size
-                    self._nonblocking_read()
+                    # the rest of this keypress may have been cut off by the read size;
+                    # read no more than could belong to it, so that a paste waiting
+                    # behind it is still read - and recognised - in one go
+                    self._nonblocking_read(events.MAX_KEYPRESS_SIZE)
                     if not self.unprocessed_bytes:
                         e = events.get_key(
                             current_bytes,
@@ -370,13 +372,13 @@ class Input(ContextManager["Input"]):
             e = find_key()
             return e if e is not None else keep_waiting()
 
-    def _nonblocking_read(self) -> int:
+    def _nonblocking_read(self, size: int = READ_SIZE) -> int:
         """Returns the number of characters read and adds them to self.unprocessed_bytes"""
         flags = fcntl.fcntl(self.in_stream.fileno(), fcntl.F_GETFL)
         try:
             with Nonblocking(self.in_stream):
                 try:
-                    data = os.read(self.in_stream.fileno(), READ_SIZE)
+                    data = os.read(self.in_stream.fileno(), size)
                 except BlockingIOError:
                     return 0
                 if data:
